@@ -27,18 +27,41 @@ theorem after_pubrec_only_pubrel (e : Engine) (a : Ack) (opId : Nat) (o : Op) (p
 theorem failing_pubrec_completes (e : Engine) (a : Ack) (opId : Nat) (o : Op) (p : Publish)
     (hs : stateBlocksAcks e.state = false) (hl : e.pendingPub.lookup a.packetId = some opId)
     (ho : e.op? opId = some o) (hp : o.packet = .publish p) (hq : p.qos = 2) (hrc : a.reasonCode ≥ 128)
-    (hnc : e.current ≠ some opId) :
+    (hnc : e.current ≠ some opId) (hnq : opId ∉ e.highQ) :
     e.handlePubrec a = e.completeSuccess opId (some (.pubrec a.packetId a.reasonCode)) := by
   have : (e.current == some opId) = false := by simpa using hnc
-  simp [Engine.handlePubrec, hs, hl, ho, hp, hq, hrc, this]
+  simp [Engine.handlePubrec, hs, hl, ho, hp, hq, hrc, this, hnq]
 
-/-- ... but not while the PUBREL of that operation is being written: completing it then would pull the packet from under
-    the encoder, so the (non-conformant) PUBREC is answered with a protocol error and the operation stays as it is -/
-theorem failing_pubrec_during_pubrel_write_is_an_error (e : Engine) (a : Ack) (opId : Nat) (o : Op) (p : Publish)
+/-- ... but not while the PUBREL of that operation is queued or being written (a successful PUBREC came first): the server
+    cannot have seen the PUBREL yet, and completing the operation would drop the PUBREL (or pull it from under the encoder),
+    so the (non-conformant) PUBREC is answered with a protocol error and the operation stays as it is -/
+theorem failing_pubrec_before_pubrel_sent_is_an_error (e : Engine) (a : Ack) (opId : Nat) (o : Op) (p : Publish)
     (hs : stateBlocksAcks e.state = false) (hl : e.pendingPub.lookup a.packetId = some opId)
     (ho : e.op? opId = some o) (hp : o.packet = .publish p) (hq : p.qos = 2) (hrc : a.reasonCode ≥ 128)
-    (hc : e.current = some opId) : e.handlePubrec a = (e, .err "ProtocolError") := by
-  simp [Engine.handlePubrec, hs, hl, ho, hp, hq, hrc, hc]
+    (hc : e.current = some opId ∨ opId ∈ e.highQ) : e.handlePubrec a = (e, .err "ProtocolError") := by
+  rcases hc with hc | hc
+  · simp [Engine.handlePubrec, hs, hl, ho, hp, hq, hrc, hc]
+  · simp [Engine.handlePubrec, hs, hl, ho, hp, hq, hrc, hc]
+
+/-- **A PUBCOMP completes the delivery only after the PUBREL has left the client**: while the PUBREL is still queued or half
+    written the PUBCOMP cannot be its answer - it is refused with a protocol error and the operation keeps its place, so
+    the PUBREL is still sent (after the reconnect the error causes) until a PUBCOMP that answers it arrives. -/
+theorem pubcomp_before_pubrel_sent_is_an_error (e : Engine) (a : Ack) (opId : Nat) (o : Op) (p : Publish)
+    (hs : stateBlocksAcks e.state = false) (hl : e.pendingPub.lookup a.packetId = some opId)
+    (ho : e.op? opId = some o) (hp : o.packet = .publish p) (hq : p.qos = 2)
+    (hc : e.current = some opId ∨ opId ∈ e.highQ ∨ o.pubrel = none) : e.handlePubcomp a = (e, .err "ProtocolError") := by
+  rcases hc with hc | hc | hc
+  · cases hpr : o.pubrel <;> simp [Engine.handlePubcomp, hs, hl, ho, hp, hq, hc, hpr]
+  · cases hpr : o.pubrel <;> simp [Engine.handlePubcomp, hs, hl, ho, hp, hq, hc, hpr]
+  · simp [Engine.handlePubcomp, hs, hl, ho, hp, hq, hc]
+
+theorem pubcomp_after_pubrel_sent_completes (e : Engine) (a : Ack) (opId : Nat) (o : Op) (p : Publish)
+    (hs : stateBlocksAcks e.state = false) (hl : e.pendingPub.lookup a.packetId = some opId)
+    (ho : e.op? opId = some o) (hp : o.packet = .publish p) (hq : p.qos = 2) (hpr : o.pubrel.isSome = true)
+    (hnc : e.current ≠ some opId) (hnq : opId ∉ e.highQ) :
+    e.handlePubcomp a = e.completeSuccess opId (some (.pubcomp a.packetId a.reasonCode)) := by
+  have : (e.current == some opId) = false := by simpa using hnc
+  simp [Engine.handlePubcomp, hs, hl, ho, hp, hq, hpr, this, hnq]
 
 /-- **The first transmission has DUP = 0 and a retransmission DUP = 1 with everything else unchanged**: setting
     the flag changes only the flag. -/
